@@ -34,6 +34,10 @@ static const char* TN = Num<T>::name;
 static const Args* g_args;
 static constexpr int kMaxN = 9;
 
+// Everything below depends on T, which differs between the translation units of this binary: internal linkage
+// (an unnamed namespace) keeps the per-type definitions of Buf, Rel, Thunk ... from colliding at link time.
+namespace {
+
 // ------------------------------------------------------------------------------------------------
 // operands: a quantity type or the plain number T, seen as an array of n numbers
 // ------------------------------------------------------------------------------------------------
@@ -835,6 +839,8 @@ static void c04_alias_probe(Reporter& R, const char* shape, GetArr&& mutable_arr
   });
   R.count(std::string("c04_alias_probes_") + TN);
 }
+
+}  // namespace
 
 // ------------------------------------------------------------------------------------------------
 void VERIF_THIS_PART(Reporter& R, const Args& A) {
